@@ -1,4 +1,6 @@
 """Byte- and TLV-level mutators and the structural alphabet for short exhaustive inputs (C08, C10, C11)."""
+import sys
+
 from . import x690
 
 # octets that matter structurally: universal tags in primitive / constructed form, high-tag-number escape,
@@ -84,7 +86,9 @@ def mutate(d, b):
                 b[ls] = d.pick([0, 0x7f, 0x80, 0x81, 0x84, 0xff, (b[ls] + 1) & 0xff, (b[ls] - 1) & 0xff])
             elif r == 9:
                 # absurd lengths: 16 MiB (kept small enough that a reader which pre-allocates stays harmless), 2**64 - 1
-                b[ls:cs] = bytes([0x84, 0x00, 0xff, 0xff, 0xff]) if d.pct(50) else bytes([0x88]) + b'\xff' * 8
+                r9 = d.int(0, 2)
+                b[ls:cs] = (bytes([0x84, 0x00, 0xff, 0xff, 0xff]) if r9 == 0 else bytes([0x88]) + b'\xff' * 8 if r9 == 1
+                            else bytes([0x88]) + (sys.maxsize - d.int(0, 12)).to_bytes(8, 'big'))       # at the edge of what read() takes
             elif r == 10:
                 b[cs:end] = b''                                   # empty contents, header kept
             else:
